@@ -215,6 +215,32 @@ Theorem C13_fista_fixed_point_optimal : forall (UtM UtU : list (list R)) (r n : 
 Proof. exact fista_fixed_point_optimal. Qed.
 Print Assumptions C13_fista_fixed_point_optimal.
 
+(* REFUTED: "when fista leaves its loop through the stopping rule the point is (nearly) stationary".  The rule is
+   |sum(x - x_new)| < tol * norm_0: the SIGNED sum, which vanishes on a step whose entries sum to zero.  With all
+   parameters at their defaults (x0 = 0, lr = 1/sigma_max = 1/3, tol = 1e-8, no penalties; epsilon = 0) on
+   UtU = [[2,1],[1,2]], UtM = (6,3) the loop stops after two iterations -- whatever the rest of the momentum sequence
+   and the budget -- at (7/3, 2/3), where the gradient is (-2/3, 2/3) and the projected step moves to (23/9, 4/9);
+   the optimum (3, 0) is a fixed point with zero gradient.  The float64 implementation returns (2.333, 0.667) on this
+   input (known finding fista_stop_rule_signed_sum).  Executed at the rational instance of the model. *)
+Theorem C13_fista_stop_rule_refuted :
+  exists (UtM UtU x0 y : list (list Q)) (lr tol : Q),
+  (forall (b : Q) (rest : list Q), fista Qops UtM UtU 1 true 0%Q 0%Q lr tol 0%Q x0 (0%Q :: b :: rest) = y) /\
+  fista_grad Qops UtM UtU 1 0%Q 0%Q y = [[-2 # 3]; [2 # 3]]%Q /\
+  fista_new Qops UtM UtU 1 true 0%Q 0%Q lr 0%Q y = [[23 # 9]; [4 # 9]]%Q /\
+  fista_new Qops UtM UtU 1 true 0%Q 0%Q lr 0%Q [[3]; [0]]%Q = [[3]; [0]]%Q /\
+  fista_grad Qops UtM UtU 1 0%Q 0%Q [[3]; [0]]%Q = [[0]; [0]]%Q.
+Proof. exists fw_UtM, fw_UtU, [[0]; [0]]%Q, [[7 # 3]; [2 # 3]]%Q, (1 # 3)%Q, fw_tol. exact fista_stop_rule_witness. Qed.
+Print Assumptions C13_fista_stop_rule_refuted.
+
+(* PARTIAL (hypothesis: tol = 0): then the rule never fires and fista returns the full iterate of its budget (the
+   protocol under which the harness runs fista to convergence); the fixed-point theorems above say what a
+   stationary iterate is *)
+Theorem C13_fista_tol0_partial : forall (UtM UtU : list (list R)) (n : nat) (nonneg : bool) (sp rd lr eps : R)
+  (betas : list R) (first : bool) (norm0 : R) (x xu : list (list R)),
+  fista_loop Rops UtM UtU n nonneg sp rd lr 0 eps betas first norm0 x xu = fista_run UtM UtU n nonneg sp rd lr eps betas x xu.
+Proof. exact fista_tol0_runs_all. Qed.
+Print Assumptions C13_fista_tol0_partial.
+
 (* ---------------------------------------------------------------------------------------------- *)
 (*  active_set_nnls                                                                                *)
 (* ---------------------------------------------------------------------------------------------- *)
